@@ -778,7 +778,8 @@ fn missing_output_setup(cx: &mut Ctx) {
 /// The wallet under test is lost and restored from its recovery phrase: a new, empty database
 /// (next key index 0) while the chain holds its earlier outputs; two payments wait to be received.
 fn restored_setup(cx: &mut Ctx) {
-	fund(cx, W, 2);
+	// (one output on chain: the index the scan restores is 1, two receives take it to 2)
+	fund(cx, W, 1);
 	fund(cx, CP, 3);
 	settle(cx, 4);
 	let phrase: String = {
